@@ -5,8 +5,8 @@
    ([respects_cost_models]).  Built on Proofs/MultiframeWindow.v (every cyclic window of n frames is
    bounded by cost_of_jobs n).  No axioms. *)
 From Coq Require Import Arith NArith List Lia Bool.
-From RTA.Model Require Import Base Wcet.
-From RTA.Spec Require Import Sched.
+From RTA.Model Require Import Base Arrival Wcet Demand Analyses Eval WellFormed.
+From RTA.Spec Require Import Sched Events TaskModel Policies.
 From RTA.Proofs Require Import GeneralCosts MultiframeWindow.
 Import ListNotations.
 Local Close Scope N_scope.
@@ -65,3 +65,41 @@ Proof.
     destruct i as [|[|i]]; destruct j as [|[|j]]; cbn [nth]; lia.
   - intros p Hp. cbn [length] in Hp. destruct p as [|[|p]]; [vm_compute; discriminate|vm_compute; discriminate|lia].
 Qed.
+
+(* task-set level: if every task carries a non-increasing Multiframe cost model and its jobs, in SOME release order, cycle through
+   the frames from SOME starting frame (each job costing at least 1 and at most its frame), the job set satisfies
+   [respects_cost_models] -- the hypothesis of the general-cost soundness theorems (fifo_rta_sound_gen etc.) *)
+Theorem multiframe_tasks_respect_cost_models : forall (tasks : list gtask) (jobs : list job),
+  (forall j, In j jobs -> j_task j < length tasks /\ 1 <= j_cost j) ->
+  (forall i, i < length tasks ->
+     exists js l s, Permutation.Permutation js (jobs_of jobs i) /\ release_sorted js /\
+       snd (nth i tasks gdflt) = Multiframe l /\ l <> [] /\ nonincreasing l /\
+       forall p, p < length js -> (N.of_nat (j_cost (nth p js jd)) <= frame_at l (s + N.of_nat p))%N) ->
+  respects_cost_models tasks jobs.
+Proof.
+  intros tasks jobs Hj Ht. split; [exact Hj|]. intros i Hi.
+  destruct (Ht i Hi) as (js & l & s & Hp & Hs & Hcm & Hl & Hni & Hc).
+  exists js. split; [exact Hp|]. split; [exact Hs|]. rewrite Hcm.
+  apply (multiframe_jobs_blocks_bounded l s js Hl Hni Hc).
+Qed.
+Print Assumptions multiframe_tasks_respect_cost_models.
+
+(* end to end, with no hypothesis about cost models left: the FIFO bound computed by the entry point is safe for every job set whose
+   tasks' jobs cycle through their (non-increasing) Multiframe vectors *)
+Theorem fifo_rta_sound_multiframe : forall dbg (tasks : list gtask) limit R jobs sched,
+  Forall gtask_ok tasks ->
+  e_fifo dbg (Agg (map grb_of tasks)) limit = ROk R ->
+  valid jobs sched -> work_conserving jobs sched -> fifo_policy jobs sched ->
+  respects_gcurves tasks jobs ->
+  (forall j, In j jobs -> j_task j < length tasks /\ 1 <= j_cost j) ->
+  (forall i, i < length tasks ->
+     exists js l s, Permutation.Permutation js (jobs_of jobs i) /\ release_sorted js /\
+       snd (nth i tasks gdflt) = Multiframe l /\ l <> [] /\ nonincreasing l /\
+       forall p, p < length js -> (N.of_nat (j_cost (nth p js jd)) <= frame_at l (s + N.of_nat p))%N) ->
+  forall k, k < length jobs -> completes_within jobs sched k (N.to_nat R).
+Proof.
+  intros dbg tasks limit R jobs sched Hok He Hv Hwc Hf Hc Hj Ht.
+  apply (fifo_rta_sound_gen dbg tasks limit R jobs sched Hok He Hv Hwc Hf Hc).
+  apply multiframe_tasks_respect_cost_models; assumption.
+Qed.
+Print Assumptions fifo_rta_sound_multiframe.
